@@ -387,7 +387,9 @@ def run(P, chk, tier):
             if sep is not None:
                 ok, why = txt_formula(P, w, s, sep)
                 rl = [e for e in rl if "computed separately" not in e[2]]
-                if not ok:
+                if ok is None:
+                    chk.undecided(r2, f, ir.loc(sep[0].node), label, why)
+                elif not ok:
                     rl.append(("rdlength", sep[0].node, why))
             chk.site(r2, f, ir.loc(rl[0][1]) if rl and rl[0][1] else line, label, not rl, rl[0][2] if rl else "every RDLENGTH matches its data")
             pe = [e for e in errs if e[0] == "pointer"]
@@ -478,15 +480,15 @@ def txt_formula(P, w, st, sep):
     bad = None
     for n in range(1, 4201):
         try:
-            env = {pt.params[1]["ref"]["name"]: 1 << 20, pt.params[3]["ref"]["name"]: n}
+            env = {pt.params[1]["ref"]["name"]: 1 << 20, pt.params[3]["ref"]["name"]: n, "__ignore__": ("memcpy",)}
             try:
                 ceval.run_straight(pt, env, {}, lambda x: False, maxsteps=4000, returns=True)
                 written = None
             except ceval.Returned as r:
                 written = r.value
-            claimed = ceval.ev(rl.val, _defs_env(w, st, nkey, n), {})
+            claimed = ceval.ev(rl.val, _defs_env(w, st, nkey, n, P), {})
         except ceval.Unknown as ex:
-            return False, "RDLENGTH %s is computed separately from the TXT strings written and cannot be evaluated (%s)" % (pp(sk(rl.val)), ex)
+            return None, "RDLENGTH %s is computed separately from the TXT strings written and cannot be evaluated (%s)" % (pp(sk(rl.val)), ex)
         if written != claimed:
             bad = (n, claimed, written)
             break
@@ -496,11 +498,19 @@ def txt_formula(P, w, st, sep):
     return True, ""
 
 
-def _defs_env(w, st, nkey, n):
+def _defs_env(w, st, nkey, n, P=None):
     """Environment for evaluating a length formula: the payload length and every
     single-definition local of the builder that depends on it."""
     from .c01 import single_defs
     env = {nkey: n}
+    if P is not None:
+        # pure integer helpers of the program (a size formula moved into its own function) are evaluated from their bodies
+        def prog(fn, args):
+            for f_ in P.funcs():
+                if f_.name == fn:
+                    return ceval.call_function(f_, args)
+            raise ceval.Unknown("call to %s" % fn)
+        env["__prog__"] = prog
     defs = single_defs(w.f)
     byname = {}
     for l in w.f.locals:
@@ -566,3 +576,42 @@ def aux_and_sender(P, E, chk):
                          "a DNS header field is patched outside the message builders (byte order and echo are not re-established)")
     if an_ok < 3:
         raise AnalysisBroken("C10.R9: sender sites not found")
+    # ------------------------------------------------------------------ R10
+    r10 = chk.rule("C10.R10", "a remembered duplicate asked the same question",
+                   "the second answer sent for a held query reuses the held query's name and type with the duplicate's id: "
+                   "wherever a duplicate is remembered (id2 assigned from the incoming query) the incoming and the held query "
+                   "are known to have the same type and byte-identical names (strcmp/memcmp == 0; a case-insensitive or prefix "
+                   "comparison would echo a name the duplicate never asked)", "E1 with summaries", floor=2)
+    nd = 0
+    for f in P.funcs({"iodined.c"}):
+        an = None
+        for node, pth, pt, val, kind in C.writes_in(P, f):
+            if not pth or pth[-1][0] != "f" or pth[-1][2] != "id2" or val is None or cval(sk(val)) == 0:
+                continue
+            v = sk(val)
+            if not (v.get("k") == "Mem" and v["field"] == "id"):
+                continue
+            nd += 1
+            hk = pp(sk(sk(node["a"][0])["a"][0]))        # the holder: users[u].q / users[u].q_sendrealsoon
+            ik = pp(sk(v["a"][0]))                        # the incoming query
+            sep = "->" if (sk(v["a"][0]).get("t") or {}).get("k") == "ptr" else "."
+            an = an or E.analysis(f)
+            ds = an.before_node(node["n"]) or []
+            okt = bool(ds) and all(guard.d_holds(d, "==", ik + sep + "type", hk + ".type") for d in ds)
+            names = (ik + sep + "name", hk + ".name")
+
+            def exact(d):
+                for g in d:
+                    if g.kind == "cmp" and g.op == "==" and g.key[2] == 0 and isinstance(g.key[0], str):
+                        m = sk(g.l)
+                        if m.get("k") == "Call" and m.get("fn") in ("strcmp", "memcmp") and len(m.get("a", ())) >= 2:
+                            a0, a1 = pp(sk(m["a"][0])), pp(sk(m["a"][1]))
+                            if {a0, a1} == set(names):
+                                return True
+                return False
+            okn = bool(ds) and all(exact(d) for d in ds)
+            chk.site(r10, f, ir.loc(node), pp(node)[:60], okt and okn,
+                     "same type and strcmp(..) == 0 between %s and %s" % names if okt and okn else
+                     "not established here: %s" % ", ".join(w_ for w_, o_ in (("same type", okt), ("byte-identical names", okn)) if not o_))
+    if nd < 2:
+        raise AnalysisBroken("C10.R10: no site remembers a duplicate (id2 = q->id)")
